@@ -714,8 +714,16 @@ def r04_14(ctx):
         raise AnalysisError(f"only {n_arms} length-guarded arms in infix_to_prefix")
 
 
+def r04_15(ctx):
+    """R04.15 both parsers resolve escapes alike: the shared unescape() drops the backslash in front of *any* character, as parser 1's
+    _expand_str does (C02 R02.2)."""
+    from . import c02
+    from .common import delegate
+    delegate(ctx, c02.r02_2, lambda c: c.startswith("unescape/"))
+
+
 def rules():
-    return [("R04.14", r04_14, 3), ("R04.13", r04_13, 1), ("R04.12", r04_12, 5), ("R04.11", r04_11, 3), ("R04.10", r04_10, 4), ("R04.1", r04_1, 20), ("R04.2", r04_2, 25), ("R04.3", r04_3, 14), ("R04.4", r04_4, 8), ("R04.5", r04_5, 5),
+    return [("R04.15", r04_15, 1), ("R04.14", r04_14, 3), ("R04.13", r04_13, 1), ("R04.12", r04_12, 5), ("R04.11", r04_11, 3), ("R04.10", r04_10, 4), ("R04.1", r04_1, 20), ("R04.2", r04_2, 25), ("R04.3", r04_3, 14), ("R04.4", r04_4, 8), ("R04.5", r04_5, 5),
             ("R04.6", r04_6, 3), ("R04.7", r04_7, 3), ("R04.8", r04_8, 4), ("R04.8b", r04_8b, 5), ("R04.9", r04_9, 2)]
 
 
